@@ -43,7 +43,7 @@ var tiers = map[string]map[string]tierCfg{
 	"C02": {"quick": {60000, 30, 20, 6, 600}, "thorough": {15000000, 1200, 30, 180, 1500}},
 	"C16": {"quick": {24000, 30, 20, 8, 600}, "thorough": {3000000, 1200, 30, 300, 1500}},
 	"C14": {"quick": {12000, 25, 20, 6, 600}, "thorough": {1000000, 900, 30, 240, 1500}},
-	"C09": {"quick": {200000, 25, 20, 0, 1000}, "thorough": {20000000, 900, 30, 0, 3000}},
+	"C09": {"quick": {200000, 25, 20, 6, 1000}, "thorough": {20000000, 900, 30, 240, 3000}},
 	"C01": {"quick": {80000, 25, 20, 5, 1000}, "thorough": {20000000, 900, 30, 240, 3000}},
 }
 
@@ -67,7 +67,7 @@ var expectedProbes = map[string][]string{
 // C09I = C02's programs with the injected cancellation, judged for C09's "deferred calls run on every exit".
 var subSweeps = map[string][]string{"C09": {"C09", "C09I"}}
 
-var raceProps = map[string]bool{"C13": true, "C14": true, "C16": true, "C02": true, "C01": true}
+var raceProps = map[string]bool{"C13": true, "C14": true, "C16": true, "C02": true, "C01": true, "C09": true}
 
 // plainRealLeg: the real-thread leg of these properties is built without the race detector: what it judges is
 // whether the process survives, not whether memory accesses are ordered.
